@@ -577,7 +577,7 @@ pub open spec fn dispatch_ok(s: Raw, msgs: Seq<SubMsg<Empty>>, sender: Seq<char>
 @ensures C05.query_content C15
     r is Ok ==> r->Ok_0.id == id && r->Ok_0.msgs == prop_of(deps.storage.view(), id)->Some_0.msgs && r->Ok_0.expires == prop_of(deps.storage.view(), id)->Some_0.expires
         && r->Ok_0.proposer == prop_of(deps.storage.view(), id)->Some_0.proposer && r->Ok_0.deposit == prop_of(deps.storage.view(), id)->Some_0.deposit
-@ensures C03.query_threshold_is_proposals_own C06
+@ensures C03.query_threshold_is_proposals_own C06 C05
     r is Ok ==> r->Ok_0.threshold == prop_of(deps.storage.view(), id)->Some_0.threshold.resp(prop_of(deps.storage.view(), id)->Some_0.total_weight)
 @prefix
     proof { if prop_of(deps.storage.view(), id) is Some { assert(prop_inv(deps.storage.view(), id, prop_of(deps.storage.view(), id)->Some_0)); } }
@@ -627,7 +627,7 @@ pub open spec fn shows(r: ProposalResponse<Empty>, id: u64, p: Proposal, b: &Blo
 @fn contracts/cw3-flex-multisig/src/contract.rs map_proposal [closures: 1]
 @requires
     item is Ok ==> pct_valid(item->Ok_0.1.threshold)
-@ensures C20.map_proposal C03
+@ensures C20.map_proposal C03 C05
     match item { Ok((id, p)) => r is Ok && shows(r->Ok_0, id, p, block), Err(_) => r is Err }
 @closure 1 C20.map_proposal_closure
     (res: ProposalResponse<Empty>)
@@ -659,7 +659,7 @@ pub proof fn lemma_listed_wf(s: Raw)
 @fn contracts/cw3-flex-multisig/src/contract.rs list_proposals [closures: 1]
 @requires
     inv(deps.storage.view())
-@ensures C20.list_proposals_page C03
+@ensures C20.list_proposals_page C03 C05
     r is Ok ==> ({
         let pg = page(listing(deps.storage.view(), "proposals"@, Seq::<u8>::empty(), false), u64_cursor(start_after), limit);
         r->Ok_0.proposals@.len() == pg.len() && forall|i: int| 0 <= i < pg.len() ==> u64_kb((#[trigger] r->Ok_0.proposals@[i]).id) == pg[i].0
@@ -686,7 +686,7 @@ pub proof fn lemma_listed_wf(s: Raw)
 @fn contracts/cw3-flex-multisig/src/contract.rs reverse_proposals [closures: 1]
 @requires
     inv(deps.storage.view())
-@ensures C20.reverse_proposals_page C03
+@ensures C20.reverse_proposals_page C03 C05
     r is Ok ==> ({
         let pg = page_desc(listing(deps.storage.view(), "proposals"@, Seq::<u8>::empty(), false), u64_cursor(start_before), limit);
         r->Ok_0.proposals@.len() == pg.len() && forall|i: int| 0 <= i < pg.len() ==> u64_kb((#[trigger] r->Ok_0.proposals@[i]).id) == pg[i].0
@@ -711,7 +711,7 @@ pub proof fn lemma_listed_wf(s: Raw)
 @end
 
 @fn contracts/cw3-flex-multisig/src/contract.rs list_votes [closures: 2]
-@ensures C20.list_votes_page
+@ensures C20.list_votes_page C03 C06
     r is Ok ==> ({
         let pg = page(listing(deps.storage.view(), "votes"@, u64_kb(proposal_id), true), str_cursor(start_after), limit);
         r->Ok_0.votes@.len() == pg.len() && forall|i: int| 0 <= i < pg.len() ==> utf8((#[trigger] r->Ok_0.votes@[i]).voter@) == pg[i].0
